@@ -55,9 +55,9 @@ LL_SOURCES = [
     REPO + "/bluetoe/link_layer/channel_map.cpp",
     REPO + "/bluetoe/link_layer/delta_time.cpp",
     REPO + "/bluetoe/link_layer/connection_details.cpp",
-    REPO + "/bluetoe/link_layer/phy_encodings.cpp",
     REPO + "/bluetoe/utility/address.cpp",
 ]
+LL_SOURCES = [s for s in LL_SOURCES if os.path.exists(s)]
 
 
 class ToolFailure(Exception):
